@@ -6,7 +6,7 @@ from props import c03
 
 RULE = ("listed witnesses first; a marker stream (rule-based / redox base reactions with spectator molecules [H][H], OO, hydroperoxides, "
         "peracids and explicit-H spellings inserted at every position of either or both sides, so that the substrings '.[H]', '.[O]', "
-        "'.OO' occur inside given molecules); the corpus run and the generated run.  Every returned row is checked by an RDKit-only "
+        "'.OO' occur inside given molecules); the corpus run and the generated run; rows given as dicts with their own id column (1-based, reversed, shuffled, sparse, textual ids); twins (mirror images, E/Z pairs, isotope-labelled and unlabelled) in one batch and in consecutive batches of one Balancer.  Every returned row is checked by an RDKit-only "
         "oracle: multiset of canonical molecules of each given side is contained in the same side of the returned reaction; "
         "input_reaction is the input with maps cleared (same molecules per side, no ':n' left).  Every batch is replayed through "
         "Model/Pipeline.run inside Coq; the oracle hypothesis of C02_partial (clean_str of every merged SMILES appended by the MCS "
@@ -60,7 +60,7 @@ def outside_guard(stripped):
     return any(c.startswith(m) for c in p.split(".")[1:] for m in MARKERS)
 
 
-def oracle(ctx, b):
+def oracle(ctx, b, extra=None):
     if len(b["rows"]) != len(b["inputs"]):
         return
     pp = {k: v for k, v in b["tables"]["pp"] if v is not None}
@@ -75,6 +75,8 @@ def oracle(ctx, b):
             ctx.count("oracle", "out_of_domain_radical_or_placeholder")
             continue
         case = {"inputs": [inp], "row": r}
+        if extra:
+            case = dict(extra, row=r)
         l, p = inp.split(">>")
         ir = r["input_reaction"] or ""
         if re.search(r":\d", ir) and "[" in ir and re.search(r":\d+\]", ir):
@@ -132,6 +134,46 @@ def run(ctx):
     allb = mv + bs + gs
     for b in allb:
         oracle(ctx, b)
+    # twins: two reactions of one batch (and of consecutive batches of one Balancer) that differ only in marks a normal form may
+    # drop -- mirror images, E/Z, isotope labels; whatever is remembered about one must not be handed to the other
+    def mirror(x):
+        return x.replace("@@", "\0").replace("@", "@@").replace("\0", "@")
+    TW = [("CC[C@H](C)C(C)=O>>CC[C@H](C)C(C)O", None), ("CC[C@H](C)C(C)O>>CC[C@H](C)C(C)=O", None), ("C[C@H](N)C(=O)Cl.CN>>C[C@H](N)C(=O)NC", None),
+          ("C[C@H](O)CC=O>>C[C@H](O)CC(=O)O", None), ("C/C=C/C(C)=O>>C/C=C/C(C)O", "C/C=C\\C(C)=O>>C/C=C\\C(C)O"),
+          ("[13CH3]C(C)=O>>[13CH3]C(C)O", "CC(C)=O>>CC(C)O"), ("[2H]C([2H])([2H])C=O>>[2H]C([2H])([2H])C(=O)O", "CC=O>>CC(=O)O"),
+          ("C[C@H](Cl)C(=O)OC.O>>C[C@H](Cl)C(=O)O", None)]
+    stereo = [i for b in bs if len(b["rows"]) == len(b["inputs"]) for i, r in zip(b["inputs"], b["rows"])
+              if "@" in i and r["solved_by"] == "rule-based" and ":" not in i]
+    TW += [(x, None) for x in stereo[:6 if ctx.quick() else 150]]
+    twins = [[a, b if b is not None else mirror(a)] for a, b in TW]
+    twins = [t for t in twins if t[0] != t[1]]
+    tv, _ = pipe.cached("c02twins_%s_%d" % (ctx.tier, ctx.seed), lambda: pipe.run_batches(twins + [t[::-1] for t in twins]))
+    for b in tv:
+        ctx.count("twins", "batches")
+        oracle(ctx, b)
+    for t in twins:
+        b = pipe.run_api(t, batch_size=1)          # one Balancer, consecutive batches
+        ctx.count("twins", "consecutive_batches")
+        oracle(ctx, b)
+    # rows given as dicts that carry their own id column (1-based, reversed, shuffled, sparse, textual): what a stage writes
+    # back by id or position must still land in the row it was computed from
+    pool = ["CC(=O)Cl.CN>>CC(=O)NC", "CC(=O)C>>CC(O)C", "CCBr.CN>>CCNC", "CC(=O)OC.O>>CC(=O)O", "CC(=O)O.CCO>>CC(=O)OCC.O", "CCCOC(=O)C>>OC(=O)C",
+            "CCO>>CC=O", "C=C.BrBr>>BrCCBr", "CC(=O)OCC>>CCO", "c1ccccc1Br.OB(O)c1ccccc1>>c1ccccc1-c1ccccc1"] + [m for m in ms[:20] if m.count(">>") == 1]
+    for j in range(8 if ctx.quick() else 120):
+        rx = rng.sample(pool, rng.randint(3, 6))
+        n = len(rx)
+        ids = [list(range(1, n + 1)), list(range(n - 1, -1, -1)), rng.sample(range(n), n), [str(i) for i in rng.sample(range(n), n)],
+               ["r%d" % i for i in range(n)], rng.sample(range(0, 3 * n), n)][j % 6]
+        for col in ("id",):
+            rows_in = [{"reaction": s, col: i} for s, i in zip(rx, ids)]
+            try:
+                b = pipe.run_api(rows_in)
+            except Exception as e:
+                ctx.count("dict_rows", "raised")
+                continue
+            ctx.count("dict_rows", "batches")
+            b["inputs"] = rx
+            oracle(ctx, b, extra={"inputs": rx, "ids": ids})
     for b in mv[:3]:
         if b["rows"]:
             ctx.sample({"input": b["inputs"][0], "row": b["rows"][0]})
@@ -162,6 +204,12 @@ def run(ctx):
 
 def replay(ctx, rep):
     case = rep.get("failing_input", {})
+    if isinstance(case, dict) and "ids" in case:
+        b = pipe.run_api([{"reaction": s, "id": i} for s, i in zip(case["inputs"], case["ids"])])
+        b["inputs"] = case["inputs"]
+        print(json.dumps(b["rows"], indent=1))
+        n = len(ctx.failures); oracle(ctx, b, extra={"inputs": case["inputs"], "ids": case["ids"]})
+        return 1 if len(ctx.failures) > n else 0
     if isinstance(case, dict) and "inputs" in case:
         b = pipe.run_batch(case["inputs"])
         print(json.dumps(b["rows"], indent=1))
